@@ -39,7 +39,7 @@ Why(r) ==
        THEN LET i == CHOOSE j \in DOMAIN cls : ~NumOk(cls[j], r.numerals[j], o.nums[j], o.want[j]) IN cls[i]
   ELSE IF r.kind = "num" /\ Len(cls) = 1 /\ r.text = r.numerals[1] /\ cls[1] = "int" /\ o.printed # r.text THEN "printed"
   ELSE IF p.dom /\ o.value # p.v THEN "value"
-  ELSE IF p.dom /\ LET q == JsonParse(o.printed) IN ~q.ok \/ q.v # p.v THEN "printed"
+  ELSE IF p.dom /\ LET q == JsonParse(o.printed) IN ~q.ok \/ (q.dom /\ q.v # p.v) THEN "printed"
   ELSE IF ~o.reparse_equal THEN "reparse"
   ELSE IF ~o.bridge_to \/ ~o.bridge_from \/ ~o.bridge_deser THEN "bridge"
   ELSE "none"
